@@ -112,14 +112,16 @@ open Asm.Layout Asm.FullText in
 /-- "`%import("f")` is equivalent to pasting f's text at that point" — for TEXT of the whole-language family: a source
 with statements `A`, then `%import("f")` (any layout, escaped path), then `B`, where f (resolved against the directory
 of the importing file, inside the root) holds the text of the program `F` — A, B, F free of file directives — is
-preprocessed to exactly the raw ops of the text in which F's statements stand in place of the directive (`hP`: any
-layout of `A ++ F ++ B` in the family); importing adds the containment check and the read of f to the trace, the pasted
-text touches no file.  Equal raw ops, hence equal bytes or equal failure of the assembler. -/
+preprocessed to exactly the raw ops of the pasted text in ANY layout: any member `P` of the family whose statements are
+those of A, F, B in this order (`hst`; blanks, comments, line ends and blank lines chosen freely — in particular F's
+last statement may get the line end it lacks in the file).  Importing adds the containment check and the read of f to
+the trace, the pasted text touches no file.  Equal raw ops, hence equal bytes or equal failure of the assembler.
+One level: nested directives inside f are covered at the level of ops by `C12_directives`. -/
 theorem C12_import_is_paste (fs : FS) (cwd : PathC) (prog : Program) (tr : List Event)
-    (head headF headP : List BlankLine) (A B F : List FullText.Item) (lead g1 g2 g3 : List Nat) (path : List PChar)
+    (head headF headP : List BlankLine) (A B F P : List FullText.Item) (lead g1 g2 g3 : List Nat) (path : List PChar)
     (term : Layout.Term)
     (hW : FullText.WF head (A ++ [⟨lead, .directive .import_ g1 g2 path g3, term⟩] ++ B)) (hF : FullText.WF headF F)
-    (hP : FullText.WF headP (A ++ F ++ B))
+    (hst : P.map (·.stmt) = (A ++ F ++ B).map (·.stmt)) (hP : FullText.WF headP P)
     (opsA opsB opsF : List AOp)
     (hA : A.mapM (fun x => x.stmt.aop?) = some opsA) (hB : B.mapM (fun x => x.stmt.aop?) = some opsB)
     (hFo : F.mapM (fun x => x.stmt.aop?) = some opsF)
@@ -132,11 +134,23 @@ theorem C12_import_is_paste (fs : FS) (cwd : PathC) (prog : Program) (tr : List 
       preprocess fs cwd fuel prog (FullText.render head (A ++ [⟨lead, .directive .import_ g1 g2 path g3, term⟩] ++ B)) tr =
         .ok (ops, tr ++ [.check (cwd.join ((baseDir prog).join (PathC.ofString (strOf (path.map PChar.value))))) true]
                      ++ [.read loc]) ∧
-      preprocess fs cwd fuel prog (FullText.render headP (A ++ F ++ B)) tr = .ok (ops, tr) ∧
+      preprocess fs cwd fuel prog (FullText.render headP P) tr = .ok (ops, tr) ∧
       ops = (opsA ++ opsF ++ opsB).map RawOp.op :=
   ⟨_, preprocess_import_paste fs cwd prog tr head headF A B F lead g1 g2 g3 path term hW hF opsA opsB opsF hA hB hFo
         hdepth r loc hroot hcheck hread fuel hf,
-      preprocess_pasted fs cwd prog tr headP A B F hP opsA opsB opsF hA hB hFo fuel (by omega), rfl⟩
+      preprocess_pasted_any fs cwd prog tr headP A B F P hst hP opsA opsB opsF hA hB hFo fuel (by omega), rfl⟩
+
+open Asm.FullText Asm.FullText.PasteExample in
+/-- every hypothesis of `C12_import_is_paste` is satisfiable: `/a.etk` = `stop⏎%import("b.etk")⏎pc`, `/b.etk` =
+`jumpdest⏎` in a concrete file tree, pasted text `stop⏎jumpdest⏎pc` -/
+example : ∃ ops,
+    preprocess fs cwd 8 prog (FullText.render [] (A ++ [⟨[], .directive .import_ [] [] path [], nl⟩] ++ B)) [] =
+      .ok (ops, [] ++ [.check (cwd.join ((baseDir prog).join (PathC.ofString (strOf (path.map PChar.value))))) true]
+                   ++ [.read ["b.etk"]]) ∧
+    preprocess fs cwd 8 prog (FullText.render [] (A ++ F ++ B)) [] = .ok (ops, []) ∧
+    ops = (([AOp.op 0x00 none] : List AOp) ++ [AOp.op 0x5b none] ++ [AOp.op 0x58 none]).map RawOp.op :=
+  C12_import_is_paste fs cwd prog [] [] [] [] A B F (A ++ F ++ B) [] [] [] [] path nl wf_a wf_b rfl wf_pasted
+    [AOp.op 0x00 none] [AOp.op 0x58 none] [AOp.op 0x5b none] rfl rfl rfl (by decide) ⟨[]⟩ ["b.etk"] ex_root ex_check ex_read 8 (by decide)
 
 open Asm.Layout Asm.FullText in
 /-- … whereas `%include("f")` hands the statements of f over as ONE nested scope (to which `C12_scope_standalone`
@@ -157,9 +171,5 @@ theorem C12_include_is_scope (fs : FS) (cwd : PathC) (prog : Program) (tr : List
            tr ++ [.check (cwd.join ((baseDir prog).join (PathC.ofString (strOf (path.map PChar.value))))) true] ++ [.read loc]) :=
   preprocess_include_scope fs cwd prog tr head headF A B F lead g1 g2 g3 path term hW hF opsA opsB opsF hA hB hFo
     hdepth r loc hroot hcheck hread fuel hf
-
-/-- the hypotheses of `C12_import_is_paste` are satisfiable: `/a.etk` = `stop⏎%import("b.etk")⏎pc`, `/b.etk` =
-`jumpdest⏎` in a concrete file tree yield the ops `stop, jumpdest, pc` -/
-example := @FullText.PasteExample.import_example
 
 end EtkVerif.C12
